@@ -308,6 +308,38 @@ Definition print_placeholder (w : world) (a : phargs) : world * res :=
       end
   end.
 
+(* print_placeholder_for_put, in three pieces (same statements, same order as the Python) *)
+(* 1. make room: clip the rows (do_not_move_cursor) or scroll and move up *)
+Definition put_prepare (w : world) (cur_y prows : Z) (dnm : bool) : world * Z :=
+  if cH c - cur_y <? prows then
+    if dnm then (w, cH c - cur_y)
+    else
+      let newlines := prows - (cH c - cur_y) in
+      let w := wr w (fmt_d cg_put_scroll [newlines]) in
+      (fst (move_cursor w None None None (Some newlines)), prows)
+  else (w, prows).
+
+(* 3. where the cursor is left *)
+Definition put_finish (w : world) (cur_x cur_y cols rows : Z) (dnm : bool) : world :=
+  let w :=
+    if dnm then move_cursor_abs w (Some cur_x) (Some cur_y)
+    else if cW c <=? cur_x + cols then set_tracked (wr w cg_put_nel) 0 (cur_y + rows)
+    else set_tracked w (cur_x + cols) (cur_y + rows - 1) in
+  if fx_marg fx && w_mflag w && negb dnm then set_tr w None else w.
+
+(* 2. ask where the cursor is, print the placeholder there *)
+Definition put_print (w : world) (image placement cols rows : Z) (dnm : bool) : world * res :=
+  match get_cursor_position w with
+  | (w, RPos cur_x cur_y) =>
+      let w := if fx_pend fx then wr w (fmt_d cg_put_cha [cur_x + 1]) else w in
+      let w := set_tr w None in
+      match print_placeholder w (PhArgs image placement 0 0 cols rows None true false) with
+      | (w, ROk) => (put_finish w cur_x cur_y cols rows dnm, ROk)
+      | r => r
+      end
+  | r => r
+  end.
+
 Definition print_placeholder_for_put (w : world) (image : option Z) (placement : Z)
            (pcols prows : option Z) (dnm : bool) : world * res :=
   match prows, pcols, image with
@@ -315,32 +347,8 @@ Definition print_placeholder_for_put (w : world) (image : option Z) (placement :
       match get_cursor_position_tracked w with
       | (w, RPos cur_x cur_y) =>
           let cols := Z.min pcols (cW c - cur_x) in
-          let '(w, rows) :=
-            if cH c - cur_y <? prows then
-              if dnm then (w, cH c - cur_y)
-              else
-                let newlines := prows - (cH c - cur_y) in
-                let w := wr w (fmt_d cg_put_scroll [newlines]) in
-                (fst (move_cursor w None None None (Some newlines)), prows)
-            else (w, prows) in
-          if (cols <=? 0) || (rows <=? 0) then (w, ROk) else
-          match get_cursor_position w with
-          | (w, RPos cur_x cur_y) =>
-              let w := if fx_pend fx then wr w (fmt_d cg_put_cha [cur_x + 1]) else w in
-              let w := set_tr w None in
-              match print_placeholder w (PhArgs image placement 0 0 cols rows None true false) with
-              | (w, ROk) =>
-                  let w :=
-                    if dnm then move_cursor_abs w (Some cur_x) (Some cur_y)
-                    else if cW c <=? cur_x + cols then
-                      set_tracked (wr w cg_put_nel) 0 (cur_y + rows)
-                    else set_tracked w (cur_x + cols) (cur_y + rows - 1) in
-                  let w := if fx_marg fx && w_mflag w && negb dnm then set_tr w None else w in
-                  (w, ROk)
-              | r => r
-              end
-          | r => r
-          end
+          let '(w, rows) := put_prepare w cur_y prows dnm in
+          if (cols <=? 0) || (rows <=? 0) then (w, ROk) else put_print w image placement cols rows dnm
       | r => r
       end
   | _, _, _ => (w, RValueError)
